@@ -334,10 +334,19 @@ def r1b_path_sites(ctx, rid='C06.R1b'):
                         flags.add(s[0][0])
         sws = core.all_switches(F, sh)
 
+        # boolean locals with more than one definition (a flag set on one arm, a condition kept in a named local):
+        # their value is tracked from constant stores and *learnt from the outcome of a switch on them*, so a later
+        # `if flag` on the same path takes the same arm
+        multi = set(l for l in range(len(sh.locals)) if sh.local_ty(l) == 'bool' and sh.single_def(l) is None and sh.defs.get(l))
+
         def on_stmt(us, bi, si, pl, rv):
-            if len(pl) == 1 and pl[0] in flags and rv[0] == 'use' and core.op_const(rv[1]):
+            if len(pl) == 1 and (pl[0] in flags or pl[0] in multi):
                 d = dict(us[1])
-                d[pl[0]] = core.op_const(rv[1])[0]
+                c = core.op_const(rv[1]) if rv[0] == 'use' else None
+                if c is not None and c[0] in (0, 1):
+                    d[pl[0]] = c[0]
+                else:
+                    d.pop(pl[0], None)
                 return (us[0], tuple(sorted(d.items())))
             return us
 
@@ -349,13 +358,24 @@ def r1b_path_sites(ctx, rid='C06.R1b'):
             return us
 
         def on_edge(us, bi, s):
-            sw = sws.get(bi)
-            if sw is not None and sw.kind == 'bool' and strip(sw.subject)[0] == 'var' and strip(sw.subject)[1] in flags:
-                d = dict(us[1])
-                v = d.get(strip(sw.subject)[1])
-                lab = sw.labels.get(s)
-                if v is not None and lab is not None and bool(v) != lab:
-                    return None
+            t = sh.term(bi)
+            if t['k'] == 'sw' and t.get('ty') == 'bool':
+                root = core.switch_root_local(sh, bi)
+                if root is not None and (root in flags or root in multi):
+                    tg_true = [b for v, b in t['ts'] if v != 0]
+                    tg_false = [b for v, b in t['ts'] if v == 0]
+                    out = True if s in tg_true else (False if s in tg_false else (not bool(tg_true)) if s == t['else'] else None)
+                    if s == t['else'] and not tg_true and tg_false:
+                        out = True
+                    elif s == t['else'] and tg_true and not tg_false:
+                        out = False
+                    d = dict(us[1])
+                    v = d.get(root)
+                    if v is not None and out is not None and bool(v) != out:
+                        return None
+                    if v is None and out is not None:
+                        d[root] = 1 if out else 0
+                        return (us[0], tuple(sorted(d.items())))
             return us
         exits, ins, parent = core.scan(sh, ('-', ()), on_stmt, on_term, on_edge)
         for (bi, us, rc, st) in exits:
